@@ -61,6 +61,9 @@ CRAFTED = [
     "a = h(1, 2)\nb = h(1, 3)\nif a:\n    c = h(h(1, 2), 2)\n    d = h(1, 2)\nelse:\n    c = 0\n    d = h(1, 2)\n",
     "x = 1\ny = 2\nx = 1\nz = 2\nx = 1\ny = 2\n",
     "v = [k * k for k in w]\nu = [k * j for k in w]\nt = {k * k: k for k in w}\n",
+    # runs of self-similar statements: windows of a multi-statement pattern overlap
+    "s.append(a)\ns.append(b)\ns.append(c)\ns.append(d)\ns.append(e)\nt.append(a)\nt.append(b)\n",
+    "s.append(a)\ns.append(a)\ns.append(a)\ns.append(a)\ns.append(a)\nif a:\n    s.append(a)\n    s.append(a)\n    s.append(a)\ns.append(a)\n",
     # constants: equal values of different types are different code
     "p = n // 2\nq = n // 2.0\nr = n // 2\ns = n * True\nt = n * 1\nu = n * 1.0\nv = n + 'a'\nw = n + b'a'\n",
     # nodes with optional fields: the same number of present children in DIFFERENT slots must not match
@@ -72,6 +75,11 @@ CRAFTED = [
 def enumerate_cases(tier, k, nworkers):
     """a small exhaustive suite over crafted modules: every node, every pair of abstracted sub-expressions, shared or not"""
     i = 0
+    for a in range(3):
+        for b in range(3):
+            if i % nworkers == k:
+                yield {"kind": "typed", "a": a, "b": b}
+            i += 1
     for src in CRAFTED:
         for node in range(16):
             for subs in ([], [0], [1], [0, 1], [0, 2], [1, 2]):
@@ -83,7 +91,19 @@ def enumerate_cases(tier, k, nworkers):
                             i += 1
 
 
+TYPED_SRC = (
+    "class Box:\n    def merge(self, other):\n        return self\nclass Bag:\n    def merge(self, other):\n        return self\n"
+    "def run(param, extra):\n    b1 = Box()\n    b2 = Box()\n    g1 = Bag()\n"
+    "    r1 = b1.merge(b2)\n    r2 = b1.merge(extra)\n    r3 = param.merge(b2)\n    r4 = g1.merge(b1)\n    r5 = b2.merge(g1)\n    return r1\n"
+)
+# ground truth for the five candidate calls: (type of the receiver, type of the argument)
+TYPED_TRUTH = {11: ("Box", "Box"), 12: ("Box", "?"), 13: ("?", "Box"), 14: ("Bag", "Box"), 15: ("Box", "Bag")}
+TYPED_CHECKS = [None, "type=mod.Box", "type=mod.Box,unsure"]
+
+
 def describe(case):
+    if case.get("kind") == "typed":
+        return case
     return {"src": case["src"][:400], "goal": case["goal"]}
 
 
@@ -160,6 +180,8 @@ def evaluate(case, env):
     out = core.Outcome()
     if case.get("kind") == "precedence":
         return _precedence_probe(case, env)
+    if case.get("kind") == "typed":
+        return _typed_probe(case, env)
     src = case["src"]
     if not srcgen.compiles(src):
         out.notes["skipped_non_ascii_or_invalid"] += 1
@@ -493,7 +515,12 @@ def evaluate(case, env):
                 if rmatch(ref_pat, n_, e_):
                     all_inst.append((n_, e_))
         goal_ok = all(isinstance(getattr(n_, "ctx", ast.Load()), ast.Load) and all(_argument_like(v) for v in e_.values()) for n_, e_ in all_inst)
-        if case["goal"] == "same" or not wildnames or case["stmts"] or not goal_ok:
+        stmt_goal = bool(case["stmts"]) and isinstance(ref_pat, list) and case["goal"] != "same"
+        if stmt_goal:
+            # a statement pattern with a goal that differs from it: every chosen window gets a marker statement in front.
+            # Windows are chosen left to right without overlap (rope's documented behaviour for overlapping matches)
+            goal = "marker_stmt()\n" + pattern
+        elif case["goal"] == "same" or not wildnames or case["stmts"] or not goal_ok:
             goal = pattern
         else:
             order = list(reversed(wildnames)) if case["goal"] == "wrap_permuted" else wildnames
@@ -521,7 +548,27 @@ def evaluate(case, env):
         except SyntaxError as e:
             out.violation("C19:result_does_not_parse:%s:%s" % (kind, case["goal"]), "%s\npattern %r goal %r" % (e, pattern, goal), sub)
             return out
-        if goal == pattern:
+        if stmt_goal:
+            want_tree = copy.deepcopy(tree)
+            k_ = len(ref_pat)
+            nested = False
+            for sl_ in list(_stmt_lists(want_tree)):
+                i_ = 0
+                chosen = []
+                while i_ + k_ <= len(sl_):
+                    if rmatch(ref_pat, sl_[i_: i_ + k_], {}):
+                        chosen.append(i_)
+                        i_ += k_
+                    else:
+                        i_ += 1
+                for i_ in reversed(chosen):
+                    if any(isinstance(x, ast.stmt) and x is not st_ and hasattr(st_, "body") for st_ in sl_[i_: i_ + k_] for x in ast.walk(st_)):
+                        nested = True  # the window itself holds statement blocks (matches inside matches): not compared
+                    sl_.insert(i_, ast.Expr(value=ast.Call(func=ast.Name(id="marker_stmt", ctx=ast.Load()), args=[], keywords=[])))
+            if not nested and not _eq(new_tree, want_tree):
+                out.violation("C19:statement_goal_substitution", "pattern %r goal %r\nexpected %s\ngot      %s" % (pattern, goal, ast.unparse(want_tree)[:400], ast.unparse(new_tree)[:400]), sub)
+                return out
+        elif goal == pattern:
             if not _eq(new_tree, tree):
                 out.violation("C19:identity_goal_changed_ast:%s" % kind, "pattern %r" % pattern, sub)
                 return out
@@ -582,6 +629,53 @@ class _Subst(ast.NodeTransformer):
 
 
 _TRIPLE = re.compile(r"'''.*?'''|\"\"\".*?\"\"\"", re.S)
+
+
+def _typed_probe(case, env):
+    """wildcard arguments (`type=...`, `unsure`): a typed wildcard matches an expression of that type, an expression of
+    unknown type only with `unsure`, and never an expression of another type - for each wildcard on its own terms"""
+    from rope.base.project import Project
+    from rope.refactor import restructure, similarfinder
+
+    out = core.Outcome()
+    root = core.fresh_dir("c19t")
+    project = Project(root, ropefolder=None)
+    try:
+        with open(root + "/mod.py", "w") as fh:
+            fh.write(TYPED_SRC)
+        res = project.get_file("mod.py")
+        args = {}
+        for w, idx in (("a", case["a"]), ("b", case["b"])):
+            if TYPED_CHECKS[idx]:
+                args[w] = TYPED_CHECKS[idx]
+
+        def ok(kind, idx):
+            chk = TYPED_CHECKS[idx]
+            return chk is None or kind == "Box" or (kind == "?" and chk.endswith("unsure"))
+
+        want = sorted(ln for ln, (ka, kb) in TYPED_TRUTH.items() if ok(ka, case["a"]) and ok(kb, case["b"]))
+        out.evals += 1
+        sub = {"args": args}
+        try:
+            r = restructure.Restructure(project, "${a}.merge(${b})", "${a}.absorb(${b})", args=args)
+            changes = r.get_changes()
+        except Exception as e:
+            out.violation("C19:typed_wildcards_raised:%s" % type(e).__name__, "%r with %s" % (e, args), sub)
+            return out
+        new = TYPED_SRC
+        if changes is not None:
+            for c in changes.changes:
+                if c.resource.path == "mod.py":
+                    new = c.new_contents
+        got = sorted(i + 1 for i, ln in enumerate(new.split("\n")) if ".absorb(" in ln)
+        if got != want:
+            out.violation("C19:typed_wildcards", "args %s: rewritten lines %s, instances by type %s" % (args, got, want), sub)
+        elif args:
+            out.nontrivial.add(("typed", case["a"], case["b"]))
+    finally:
+        project.close()
+        core.rmtree(root)
+    return out
 
 
 def _precedence_probe(case, env):
